@@ -13,7 +13,7 @@ import traceback
 import z3
 
 from common import (REPO, WORK, Report, scratch, run, tier, seed, repo_hash, BuildError)
-from mirse.exec import Program, Inconclusive
+from mirse.exec import Program, Inconclusive, OverBudget
 from mirse import summaries as SM
 from lex import families as F, crate as C, step as ST, spec as SP, regex as R, select
 
@@ -34,23 +34,29 @@ def def_key(d, N, variants, rh):
     return hashlib.sha256(text.encode()).hexdigest()[:20]
 
 
-ST_VERSION = 3      # bump to invalidate cached per-definition results when the harness changes
+ST_VERSION = 5      # bump to invalidate cached per-definition results when the harness changes
 
 
 def work_def(args):
     """worker: all steps of one definition.  returns a picklable dict"""
-    i, N, variants = args
+    i, N, variants, budget = args
     d = _G['defs'][i]
     prog = _G['prog']
     t0 = time.time()
-    res = {'idx': i, 'mismatches': [], 'inconclusive': None, 'stats': None}
+    res = {'idx': i, 'mismatches': [], 'inconclusive': None, 'stats': None, 'over_budget': False}
     try:
         h = ST.StepHarness(prog, i, d, N, fields=_G['fields'])
+        h.ex.deadline = t0 + budget
+        nseen = {}
         for rho in range(len(d.rulesets)):
             for (prepeek, done) in variants:
                 if done and rho != 0:
                     continue
                 for m in h.run_step(rho, prepeek=prepeek, done=done):
+                    rk = (tuple(sorted(m.aspects)), ''.join(ch for ch in m.what if not ch.isdigit()))
+                    nseen[rk] = nseen.get(rk, 0) + 1
+                    if nseen[rk] > 3:
+                        continue
                     res['mismatches'].append({
                         'aspects': sorted(m.aspects), 'what': m.what, 'rho': rho, 'prepeek': prepeek, 'done': done,
                         'concrete': ST.concretize(h, m.model, m.detail.get('decisions', ())) if m.model is not None else None,
@@ -61,7 +67,11 @@ def work_def(args):
         st['solver_time'] = round(h.ex.solver_time, 3)
         st['cache_hits'] = h.ex.cache_hits
         st['fn_cover'] = {k: len(v) for k, v in h.ex.fn_cover.items() if ('::next' in k or 'RIGHT_CTX' in k or 'backtrack' in k)}
+        st['mismatch_roles'] = {'%s | %s' % ('+'.join(k[0]), k[1]): v for k, v in nseen.items()}
         res['stats'] = st
+    except OverBudget as e:
+        res['over_budget'] = True
+        res['inconclusive'] = None
     except Inconclusive as e:
         res['inconclusive'] = str(e)[:1500]
     except Exception as e:
@@ -142,6 +152,8 @@ def main(prop):
     rep = Report(prop)
     rng = random.Random(seed() * 7919 + int(prop[1:]))
     thorough = tier() == 'thorough'
+    budget = 600 if thorough else 100
+    ST.MAX_DYN[0] = 3 if thorough else 2
     try:
         defs, N, variants = select.select(prop, thorough, rng)
         rh = repo_hash()
@@ -205,19 +217,20 @@ def main(prop):
             if rep.inconclusive:
                 return rep.finish()
             with mp.Pool(min(16, max(1, len(todo)))) as pool:
-                for r in pool.imap_unordered(work_def, [(i, N, variants) for i in todo]):
+                for r in pool.imap_unordered(work_def, [(i, N, variants, budget) for i in todo]):
                     results[r['idx']] = r
-                    if r['inconclusive'] is None:
+                    if r['inconclusive'] is None and not r.get('over_budget'):
                         with open(os.path.join(cache_dir, keys[r['idx']] + '.json'), 'w') as f:
                             json.dump(r, f)
                     if os.environ.get('VERIF_VERBOSE'):
-                        print('  %-14s %6.1fs %s' % (defs[r['idx']].name, r['time'], r['inconclusive'] or ('%d mismatches' % len(r['mismatches']))), file=sys.stderr)
+                        print('  %-14s %6.1fs %s' % (defs[r['idx']].name, r['time'], r['inconclusive'] or ('OVER BUDGET' if r.get('over_budget') else '%d mismatches' % len(r['mismatches']))), file=sys.stderr)
         # ---- verdicts
         tot = {'paths': 0, 'queries': 0, 'ref_outcomes': 0, 'solver_time': 0.0}
         covers = {}
         nontrivial = 0
         samples = []
         other = {}
+        over = []
         for i, d in enumerate(defs):
             if i in crate.errors:
                 continue
@@ -227,6 +240,10 @@ def main(prop):
             if r['inconclusive']:
                 rep.inconc('%s: %s' % (d.name, r['inconclusive']))
                 continue
+            if r.get('over_budget'):
+                over.append(d.name)
+                if not r.get('stats'):
+                    continue
             stt = r['stats']
             for k in tot:
                 tot[k] += stt.get(k, 0)
@@ -262,7 +279,7 @@ def main(prop):
                 rep.violation('expansion ' + select.expansion_key(e), '%s: well-formed definition is not turned into a lexer: %s' % (d.name, e[:300]),
                               {'property': prop, 'definition': d.lexer_text('L').split('\n'), 'error': e})
         rep.coverage = {
-            'programs': len(defs) - len(crate.errors),
+            'programs': len(defs) - len(crate.errors) - len(over),
             'evaluations': tot['queries'] + tot['paths'],
             'distinct_nontrivial': nontrivial,
             'rule': 'programs: %d generated lexer definitions (curated + seeded random, listed families in lex/select.py); per definition every start rule set x {nothing peeked, one character peeked, done} boundary state; '
@@ -272,6 +289,7 @@ def main(prop):
             'states': tot['paths'], 'transitions': tot['queries'], 'traces_validated_against_impl': validated,
             'witnesses': covers, 'bounds': {'N_remaining_chars': N, 'variants': [list(v) for v in variants]},
             'programs_not_expanded': not_expanded,
+            'programs_over_time_budget_not_decided': over,
             'mismatches_attributed_to_other_properties': other,
             'cached_definitions': len(cached),
             'functions_encoded': ['<generated lexer as Iterator>::next', 'generated switch / switch_and_return / semantic-action wrappers / right-context functions',
